@@ -54,6 +54,11 @@ var (
 		{"POST", "/p%2ES1/M1"}, {"POST", "/p.S%31/M1"}, {"POST", "/p.S2/a/b"}, {"POST", "/q.T/"}, {"POST", "//M"}, {"POST", "/p.S1"},
 		{"POST", "/"}, {"POST", "/p.S1/M%zz"}, {"POST", "/p.S1\xc3\xa9/M"}, {"POST", "/p.S1%20x/M"}, {"POST", "/nobody.S/M"}, {"POST", "/p.S1/M1?"},
 		{"POST", "/p.S2/M%2Fx"}, {"POST", "/p.S2%2FM"},
+		// only the exact token POST is the gRPC-style HTTP form (HTTP methods are case-sensitive, RFC 9110 9.1): tokens that equal
+		// POST only up to case, near-misses and the other standard methods get the non-POST answer (seeded change C14-m12)
+		{"post", "/p.S1/M1"}, {"Post", "/p.S1/M1"}, {"pOST", "/p.S1/M1"}, {"POSt", "/p.S1/M1"}, {"POSTS", "/p.S1/M1"}, {"POS", "/p.S1/M1"},
+		{"XPOST", "/p.S1/M1"}, {"post", "/nobody.S/M"}, {"Post", "/p.S2/a/b"}, {"HEAD", "/p.S1/M1"}, {"DELETE", "/p.S1/M1"},
+		{"PATCH", "/p.S1/M1"}, {"OPTIONS", "/p.S1/M1"}, {"TRACE", "/p.S1/M1"}, {"CONNECT", "/p.S1/M1"}, {"post", "/"},
 	}
 	wTargets = []string{"/p.S1/M1", "/p%2ES1/M1", "/p.S%31/M1", "/p.S2/a%2Fb", "/p.S2%2FM", "/q.T/", "//M", "/p.S1", "/p.S1/M%20x?q=1", "/p.S1%20x/M", "/p.S1/%zz", "/nobody.S/M"}
 	xNames   = []string{"/p.S1/M1", "p.S2/M", "/p%2ES1/M", "/q.T/a/b", "/nobody.S/M", "bad"}
@@ -247,7 +252,8 @@ func (Area) Gen(r *rand.Rand, tier string, emit func(string)) {
 	if tier == "thorough" {
 		maxH = 5
 	}
-	small := &c06.Line{Pool: targets, G: g[:4], H: hTargets[:3], W: wTargets[:2], X: xNames[:2]}
+	small := &c06.Line{Pool: targets, G: g[:4], H: append(append([][2]string{}, hTargets[:3]...), [2]string{"post", "/p.S1/M1"}, [2]string{"Post", "/p.S1/M1"}),
+		W: wTargets[:2], X: xNames[:2]}
 	var rech func(prefix []c06.Op)
 	rech = func(prefix []c06.Op) {
 		if len(prefix) > 0 {
